@@ -6,17 +6,25 @@ P = {
                   'declares (and, on the eth route, is charged up front) at least gasLimit x minGasPrice in the EVM denomination; '
                   'no Ethereum message passes with fee cap < base fee; gasUsed = max(floor(mult x limit), consumed - min(counter, consumed/q)) '
                   'is within [that, gasLimit]; deduction - refund = gasUsed x effective price = fee collector delta, per message, per '
-                  'multi-message transaction and summed over any history; hard error keeps the whole limit charged; link to C17 '
+                  'multi-message transaction and summed over any history; for every list of messages and every assignment of signers '
+                  'to them (signer model deliver_eth_s: deduction from and refund to the signer of each message) every signer\'s net '
+                  'payment is exactly the sum of gasUsed x effective price over the messages it signed - a function of its own '
+                  '(message, gas used) pairs only, invariant under permutation, zero for an account that signed nothing - and the '
+                  'signers\' payments add up to the collector\'s gain; the variant that accumulates the fees of consecutive messages and '
+                  'never clears the pending amount is refuted on [A, B]; when one account signs every message the signer model and the '
+                  'single-sender model provably agree; hard error keeps the whole limit charged (per signer: of its '
+                  'own messages); link to C17 '
                   '(paid >= floor on both routes when base >= minGasPrice) with a machine-checked counterexample without the guard. '
                   'The model is the executable Gallina transcription of the fee decorators of both routes, VerifyFee, GasToRefund, the '
                   'min-gas-used rule, RefundGas and ApplyTransaction; it is compared on every run with real BaseApp.DeliverTx (and the real '
-                  'ante chain in CheckTx mode) on generated transactions',
+                  'ante chain in CheckTx mode) on generated transactions: Ethereum transactions with the signer model (per-signer net '
+                  'payments of three watched accounts), and additionally with the single-sender model when one account signs every message',
     'level_note': 'trusted: Coq kernel + vm_compute, std++ (decidable equality of the observation record only); the hand-written model, tied '
                   'to /repo only by the sampled correspondence run; go-ethereum gas accounting enters as data (gas consumed, refund counter, '
                   'vm error per message, measured by a tracer on a fork of the deliver state); bank transfers (DeductFees, '
                   'SendCoinsFromModuleToAccount), baseapp ante/message atomicity, signature checks and SDK gas metering of Cosmos '
                   'transactions are not modelled; no axioms',
-    'technique': 'Coq proof (arithmetic of the fee rules, induction over message lists and transaction histories) + differential '
+    'technique': 'Coq proof (arithmetic of the fee rules, induction over message lists with a signer per message and over transaction histories) + differential '
                  'correspondence against real DeliverTx',
     'drivers': [
         {'name': 'fees', 'args': {'strict': '1'}, 'n': {'quick': 3000, 'thorough': 60000}, 'shrink_field': 'txs', 'batch': 6000},
@@ -26,17 +34,23 @@ P = {
     'search': {'rounds': 4, 'n': 6000},
     'rule': 'a case is 1-3 transactions delivered in one block on a fresh fork of a committed real application with the feemarket '
             'parameters of the case (MinGasPrice 0 / fractional / integral / 1e9, base fee disabled / below / at / above it, '
-            'MinGasMultiplier 0 / 0.5 / 1 / 18-digit): Ethereum transactions of 1-3 legacy / access-list / dynamic-fee messages '
+            'MinGasMultiplier 0 / 0.5 / 1 / 18-digit): Ethereum transactions of 1-5 legacy / access-list / dynamic-fee messages '
+            'signed by 1-3 different accounts A, B, C in any interleaving (A; AB; ABA; AAB; ABC; BABA ...), each message with its own '
+            'gas limit, price / fee cap / tip '
             '(transfer, storage set / clear for refunds, revert, log, create, failing create; gas limit below / at / just above the '
-            'intrinsic gas or generous; price, fee cap and tip at the acceptance thresholds -1/0/+1; sender balance ample or around '
-            'the exact cost) and Cosmos bank sends (fee around ceil(minGasPrice x gas) and base fee x gas, four denomination shapes, '
+            'intrinsic gas or generous; price, fee cap and tip at the acceptance thresholds -1/0/+1, 60 % of the multi-message '
+            'transactions lifted over them as a whole; balance of every signer ample or around the exact up-front cost of its own '
+            'messages; oracle per signer: net payment = sum of gasUsed x effectiveGasPrice over its own executed messages, '
+            'non-signers pay nothing, collector delta = sum over all messages, a refused transaction charges nobody) and Cosmos bank sends (fee around ceil(minGasPrice x gas) and base fee x gas, four denomination shapes, '
             'dynamic-fee extension option absent / 0 / small / negative); non-trivial = at least one transaction passed the ante '
             'chain; distinct = distinct inputs',
     'trusted_base': [
         'Coq 8.16.1 kernel incl. vm_compute (no native_compute); std++ 1.8.0 (EqDecision of the observation record)',
         'axioms: none (Print Assumptions: closed under the global context for every theorem of Props/C07.v)',
         'correspondence harness harness/fees.go, fees_gen.go + vlib/core.py (generator, tracer run on a fork for the raw EVM '
-        'figures, canonicaliser of ABCI codes into 5 classes, oracle); the uncommitted deliver state of BaseApp is dropped between '
+        'figures, canonicaliser of ABCI codes into 5 classes, oracle; value moved is attributed to a signer through the vm-error flag '
+        'of the real MsgEthereumTxResponse and cross-checked against the recipients\' balance increase; "ante passed" = some '
+        'signer\'s sequence moved); the uncommitted deliver state of BaseApp is dropped between '
         'cases through reflection on its unexported field',
         'modelled, not verified: go-ethereum gas accounting (data), intrinsic gas (go-ethereum core.IntrinsicGas, data), bank '
         'transfers, baseapp atomicity (ante effects kept, message effects dropped on error), ClaimStakingRewardsIfNecessary '
@@ -45,7 +59,7 @@ P = {
     'assumptions': [
         'feemarket parameters pass Params.Validate: MinGasPrice >= 0, BaseFee >= 0, 0 <= MinGasMultiplier <= 1',
         'the EVM reports gas consumed <= gas limit and a non-negative refund counter',
-        'all messages of a transaction have the same signer without delegations; recipients differ from sender and fee collector',
+        'signers have no delegations (no staking rewards to claim) and are plain accounts; recipients differ from the signers and the fee collector',
         'first sentence read on the fee a transaction declares; on the Cosmos route the fee charged (min(base + tip, floor(fee/gas)) x gas) '
         'reaches the floor only when base fee >= minGasPrice (C17 invariant) - cases outside are tagged feemarket:base-below-min-gas-price',
     ],
